@@ -352,5 +352,80 @@ def get_cfacts(ctx):
         facts = compute()
         from . import csym
         csym.Sym.GLOBALS = frozenset(facts.globals)
+        facts_lookup_like(facts)
+        csym.EXTRA_LOOKUPS = frozenset(facts._lookup_like)
         return facts
     return ctx.memo("cfacts", with_globals)
+
+
+
+BASE_LOOKUPS = {"dict_getitem", "PyDict_GetItem", "PyDict_GetItemWithError"}
+
+
+def facts_lookup_like(facts):
+    """In-file functions that merely look something up and hand back the
+    *borrowed* result (or NULL for 'absent') - e.g. a helper extracted from
+    an `instance dict, then class dict` lookup.  Inferred structurally: every
+    return is NULL, a lookup call, or a local that is only ever assigned
+    NULL / lookup results; the function takes no reference and calls nothing
+    that can run Python code besides the lookups."""
+    if hasattr(facts, "_lookup_like"):
+        return facts._lookup_like
+    from .cexpr import callee, is_null, strip
+    found = set()
+    changed = True
+    while changed:
+        changed = False
+        for f in facts.defined_functions():
+            if f in found or f in BASE_LOOKUPS:
+                continue
+            fn = facts.func(f)
+            t = fn.type or ""
+            if "*" not in t.split("(")[0]:
+                continue
+            known = BASE_LOOKUPS | found
+            calls = [callee(x) for x in fn.walk() if x.kind == "CallExpr"]
+            if not calls or any(c not in known for c in calls):
+                continue
+            # locals assigned only from lookups / NULL
+            ok_vars = {}
+            bad_vars = set()
+            for x in fn.walk():
+                if x.kind == "BinaryOperator" and x.op == "=":
+                    l, r = strip(x.ch[0]), strip(x.ch[1])
+                    if l.kind == "DeclRefExpr":
+                        good = is_null(r) or (r.kind == "CallExpr"
+                                              and callee(r) in known)
+                        (ok_vars if good else bad_vars).setdefault(
+                            l.ref, True) if good else bad_vars.add(l.ref)
+                if x.kind == "VarDecl" and x.ch:
+                    r = strip(x.ch[-1])
+                    good = is_null(r) or (r.kind == "CallExpr"
+                                          and callee(r) in known)
+                    if good:
+                        ok_vars[x.name] = True
+                    else:
+                        bad_vars.add(x.name)
+            rets = [x for x in fn.walk() if x.kind == "ReturnStmt"]
+            if not rets:
+                continue
+            good = True
+            for r in rets:
+                if not r.ch:
+                    good = False
+                    break
+                e = strip(r.ch[0])
+                if is_null(e):
+                    continue
+                if e.kind == "CallExpr" and callee(e) in known:
+                    continue
+                if e.kind == "DeclRefExpr" and e.ref in ok_vars \
+                        and e.ref not in bad_vars:
+                    continue
+                good = False
+                break
+            if good:
+                found.add(f)
+                changed = True
+    facts._lookup_like = found
+    return found
